@@ -24,9 +24,9 @@ func (s Status) String() string {
 
 // Obligation is one rule instance.
 type Obligation struct {
-	Rule   string `json:"rule"`   // e.g. C10.1
-	Key    string `json:"key"`    // instance key: construct, never a line number
-	Pos    string `json:"pos"`    // file:line (diagnostic only)
+	Rule   string `json:"rule"` // e.g. C10.1
+	Key    string `json:"key"`  // instance key: construct, never a line number
+	Pos    string `json:"pos"`  // file:line (diagnostic only)
 	Status Status `json:"-"`
 	St     string `json:"status"`
 	Detail string `json:"detail"` // reason / witness
@@ -78,9 +78,9 @@ func (c *Ctx) add(rule, key, pos string, st Status, detail string) *Obligation {
 	return o
 }
 
-func (c *Ctx) OK(rule, key, pos, detail string)   { c.add(rule, key, pos, Discharged, detail) }
-func (c *Ctx) Bad(rule, key, pos, detail string)  { c.add(rule, key, pos, Violated, detail) }
-func (c *Ctx) Unk(rule, key, pos, detail string)  { c.add(rule, key, pos, Undecided, detail) }
+func (c *Ctx) OK(rule, key, pos, detail string)  { c.add(rule, key, pos, Discharged, detail) }
+func (c *Ctx) Bad(rule, key, pos, detail string) { c.add(rule, key, pos, Violated, detail) }
+func (c *Ctx) Unk(rule, key, pos, detail string) { c.add(rule, key, pos, Undecided, detail) }
 func (c *Ctx) Check(cond bool, rule, key, pos, okDetail, badDetail string) bool {
 	if cond {
 		c.OK(rule, key, pos, okDetail)
@@ -228,9 +228,9 @@ func (c *Ctx) Finish(verifDir string, seed int) int {
 		keys[o.Rule+"|"+o.Key] = true
 	}
 	cov := map[string]interface{}{
-		"explanation": c.Explain,
-		"obligations": len(c.Obls),
-		"discharged":  ndis + nknown,
+		"explanation":            c.Explain,
+		"obligations":            len(c.Obls),
+		"discharged":             ndis + nknown,
 		"known_findings_matched": nknown,
 		"evaluations":            len(c.Obls),
 		"distinct_nontrivial":    len(keys),
